@@ -209,20 +209,21 @@ impl BlockData {
         let slice_index = header.slice_index;
         let is_last = header.is_last;
 
-        // first shred for a slice populates the commitment cache;
         // a later shred with a different valid commitment proves leader equivocation
-        match self.commitment_cache.entry(slice_index) {
-            Entry::Occupied(entry) if entry.get() != &shred.commitment() => {
-                return Err(AddShredError::Equivocation);
-            }
-            Entry::Occupied(_) => {}
-            Entry::Vacant(entry) => {
-                entry.insert(shred.commitment());
-            }
+        if let Some(cached) = self.commitment_cache.get(&slice_index)
+            && cached != &shred.commitment()
+        {
+            return Err(AddShredError::Equivocation);
         }
 
+        // so do contradictory last-slice markers, in whichever order they arrive
         match self.last_slice {
-            None if is_last => self.mark_last_slice(slice_index),
+            None if is_last => {
+                // a validly signed slice beyond the one now declared last was already seen
+                if self.commitment_cache.keys().any(|&ind| ind > slice_index) {
+                    return Err(AddShredError::Equivocation);
+                }
+            }
             None => {}
             Some(l) => {
                 let consistent = (slice_index < l && !is_last) || (slice_index == l && is_last);
@@ -230,6 +231,15 @@ impl BlockData {
                     return Err(AddShredError::Equivocation);
                 }
             }
+        }
+
+        // first shred for a slice populates the commitment cache
+        // (only once the shred is known not to prove equivocation)
+        self.commitment_cache
+            .entry(slice_index)
+            .or_insert_with(|| shred.commitment());
+        if self.last_slice.is_none() && is_last {
+            self.mark_last_slice(slice_index);
         }
 
         let is_first_shred = self.shreds.is_empty();
